@@ -2,19 +2,24 @@ PROP = dict(
     module="M3d.Props.C02",
     corr=dict(quick=400, thorough=2500),
     gen=["Kernels"],
-    tie_modules=["M3d.Lemmas.KernelsTieDC"],
+    tie_modules=["M3d.Lemmas.KernelsTieDC", "M3d.Lemmas.KernelsTieFilterBounds"],
     corr_theorems=(
         "mcv/msv: mc_vertex_iff_sign_change, mc_vertex_only_on_sign_change, mc_one_vertex_per_edge, mc_side_correct "
         "(and ms_*): the driver prints the set of sign-changing lattice edges after checking that the table-driven "
         "whole-lattice model mesh mcMesh/msMesh has exactly that vertex set; "
-        "mcs/mss: bisect_keeps_contained_end, bisect_width, bisect_result_between, bisect_within_spacing, "
+        "mcf/msf (and the Filter variants inside mcv/msv/mcs/mss): ms_filter_same_mesh, ms_filter_vertex_iff_sign_change, "
+        "ms_filter_vertex_only_on_sign_change, ms_filter_side_correct (and mc_filter_*) with ms/mc_rect_filter_point_sound + "
+        "ms/mc_filter_rect_covers_block_points (a filter that says no only where Contains is constant is a sound block oracle "
+        "because Bounds covers the block's lattice points) and the tie M3d.KernelsTie.FilterBounds.* for the regenerated Bounds; "
+        "the driver runs msFilterMesh1/mcFilterMesh1 with tightFilter (filter_tight_sound) and prints the sign-changing edges; "
+        "mcs/mss: lookup_edge_point_recovers, ms_lookup_recovers, bisect_keeps_contained_end, bisect_width, bisect_result_between, bisect_within_spacing, "
         "search_picks_true_end, ms_normal_picks_contained_end + ms_search_picks_true_end, interior_point_contained, "
         "mc_search_vertex_on_edge (the driver runs M3d.Bisect.mcSearchPoint/msSearchPoint at Rat, edge recovered by the "
         "model of LookupEdgePoint / the msSearch window); "
         "bis: bisect_interior_contained, bisect_point_bracketed (driver runs bisectPoint/bisectInterior at Float, bit for bit); "
         "dcidx/dcsz: dc_edge_cubes_consistent, dc_index_roundtrip, dc_four_cubes_round_edge (driver prints the Lean index "
         "functions the theorems are about); dc/dcr: dc_one_quad_per_active_edge, dc_quad_orientation, dc_clip_in_cell, "
-        "dc_quad_crossed_once, dc_flip_reverses_normal"
+        "dc_quad_crossed_once, dc_flip_reverses_normal, dc_quad_meets_only_own_edge; dcr additionally dc_repair_midpoint_between"
     ),
     rule=(
         "mcv/msv: all 256 (16) single-cell labellings, then random lattice-defined solids (voxel bitfields incl. noisy "
@@ -23,6 +28,13 @@ PROP = dict(
         "MarchingCubesFilter / MarchingCubesSearch(0) and the 2-D twins: real vertex set (exact coordinates mapped to "
         "doubled lattice indices via the exported spacer arrays) must equal the set of sign-changing lattice edges, and "
         "the parity rule along every lattice line is evaluated on the real mesh; "
+        "mcf/msf: MarchingCubesFilter / MarchingSquaresFilter / SearchFilter(0) with a real region filter and GOMAXPROCS 1..4 on "
+        "lattices with several levels of block subdivision (2-D 10..53, 3-D 6..21 cells per side) and solids made of small features "
+        "at arbitrary positions relative to the blocks (islands of 1/4..2 cells, thin bars, single voxels, holes, next to a large "
+        "body); the filter answers false exactly when a three-valued exact evaluation of the CSG tree shows Contains constant on the "
+        "rectangle (mode 1) or when all lattice points of the rectangle carry one label (mode 2); every false is cross-checked "
+        "against the lattice labels; demanded output as for mcv/msv; counters record how many rectangles were kept only because of "
+        "their last index layer; the Filter variants inside mcv/msv/mcs/mss draw one of {always true, mode 1, mode 2}; "
         "mcs/mss: MarchingCubesSearch / SearchFilter / Interior and MarchingSquaresSearch(+Filter) with 0..12 iterations "
         "(0..40 on box/half-space solids) in exact dyadic arithmetic: every refined vertex (and interior point) must equal "
         "the model's rational; additionally, on the real output, each vertex is strictly inside its lattice edge, the two "
@@ -36,7 +48,9 @@ PROP = dict(
         "quads reconstructed from the real triangles (vertex -> cell by exact comparison with the exported layout) must "
         "equal the model's quads cell by cell incl. orientation; every vertex strictly inside its cell and within the "
         "margin; every lattice edge's crossings counted exactly (big.Rat) must be one with the predicted normal sign iff "
-        "its ends differ; one contained interior point per active edge"
+        "its ends differ; one contained interior point per active edge; one third of the CSG cases add zero-thickness plates / "
+        "segments / points at lattice positions, and a focused batch of 3N small Repair cases (round body + such features, NoJitter, "
+        "default margin) produces singular edges whose ends are clipped to the cube margin"
     ),
     trusted=[
         "regenerated, not hand-written: lean/M3d/Gen/Kernels.lean (Go->Lean translator harness/hlib/go2lean) contains the index "
@@ -44,16 +58,22 @@ PROP = dict(
         "(truncating % and /=), edgeCounts and x/y/zEdgeIdx are the layout functions of Model/DualContour.lean (nx = len(Xs), ny = len(Ys))",
         "regenerated by the C01 check, imported here: the 256/16-row lookup tables (M3d/Gen/McTable.lean); "
         "C01.mc_rows_wellformed / ms_rows_wellformed are the only table facts the whole-lattice lift uses",
-        "modelled, not verified: LookupEdgePoint's mod/int arithmetic and msSearch's window are modelled at Rat "
-        "(M3d.Bisect.lookupEdgePoint/msLookup) and tied by exact correspondence only; no theorem states that they recover "
-        "the edge of a midpoint vertex",
+        "LookupEdgePoint's mod/int arithmetic and msSearch's window are modelled at Rat (M3d.Bisect.lookupEdgePoint/msLookup), "
+        "tied by exact correspondence, and proved to recover the edge of a midpoint vertex over Rat "
+        "(lookup_edge_point_recovers, ms_lookup_recovers); the float evaluation coincides on the dyadic lattices of the correspondence",
+        "region filter: the block machinery (Split, Pieces, worker pool as an arbitrary schedule) is C12's M3d/Model/Partition.lean "
+        "(tied to the source by C12's KernelsTiePartition); here the regenerated msBlock.Bounds / mcBlock.Bounds are tied by "
+        "M3d.KernelsTie.FilterBounds (they contain every lattice point min..max of the block).  The harness's three-valued CSG "
+        "evaluator (filter mode 1) is trusted Go code, cross-checked against the lattice labels on every rejected rectangle; "
+        "MarchingSquaresC2F / MarchingCubesC2F are not exercised here",
         "floating point: the bisection theorems are over ordered fields; the code's float arithmetic coincides with them "
         "on the dyadic inputs of the exact correspondence (all sums exact).  For non-dyadic lattices (x += delta "
         "accumulation, delta*i + jitter) the lattice values are taken as given",
         "dual contouring: QEF solution, normal estimation (SolidSurfaceEstimator.Normal) and Repair's vertex moves are not "
         "modelled; the crossing theorem holds for ANY vertex positions strictly inside the cells, which Clip guarantees "
         "(dc_clip_in_cell) and the harness checks on every real vertex; for Repair=true only the crossing/orientation/"
-        "interior checks are applied to the real mesh (no theorem covers the repaired topology)",
+        "interior checks are applied to the real mesh (dc_repair_midpoint_between covers the inserted midpoints of singular "
+        "edges; no theorem covers the repaired topology as a whole)",
         "buffer shifting (dcCubeLayout.Shift, UsableEdges) is not modelled: the model is the whole lattice at once; the "
         "correspondence runs the real code with small BufferSize so that several shifts occur and demands the same quads",
         "the harness's exact crossing counter (big.Rat orientation tests) and quad reconstruction are trusted Go code; "
@@ -70,17 +90,21 @@ PROP = dict(
         "the end-selection rules of mcSearchPoint (generic) and msSearch (decided over the regenerated 16-row table) pick "
         "the contained end; interior points are contained; over the whole-lattice model of marching cubes/squares "
         "(regenerated tables) a vertex sits on a lattice edge iff its ends differ, nowhere else, one position per edge, "
-        "and the parity of vertices along any lattice line equals the label; for dual contouring the flat index "
+        "and the parity of vertices along any lattice line equals the label; the Filter variants with any filter that says no "
+        "only where Contains is constant (any worker schedule) produce a permutation of the unfiltered face list, because the "
+        "rectangle of Bounds (regenerated, tied) contains every lattice point of its block; LookupEdgePoint and the msSearch "
+        "window recover the lattice edge of a midpoint; for dual contouring the flat index "
         "functions are mutually inverse and EdgeCubes/CubeEdges are consistent for every grid size, exactly one quad "
         "per active edge with the four surrounding cells, oriented from the contained to the excluded end, clipped "
-        "vertices stay in their cells, and any quad with vertices inside its four cells is crossed by its edge exactly "
-        "once with that normal.  Tie: exact (Rat) / bit-exact (Float) correspondence of the real MarchingCubes*, "
+        "vertices stay in their cells, any quad with vertices inside its four cells is crossed by its edge exactly "
+        "once with that normal and meets no other lattice edge, and the vertex Repair inserts on a singular edge stays between "
+        "the edge's ends round every grid edge of the shared face.  Tie: exact (Rat) / bit-exact (Float) correspondence of the real MarchingCubes*, "
         "MarchingSquares*, SolidSurfaceEstimator and DualContouring code with these models, plus direct evaluation of "
         "the property predicates on real outputs."
     ),
     level_note=(
-        "Not mechanised: LookupEdgePoint's edge recovery (correspondence only); QEF/normal numerics and Repair; buffer "
-        "shifting; float rounding on non-dyadic lattices.  Trusted: Lean kernel, C01's regenerated tables, harness "
+        "Not mechanised: QEF/normal numerics and the repaired topology as a whole; buffer shifting; float rounding on "
+        "non-dyadic lattices; gluing the per-quad crossing statements into one theorem about real vertex positions.  Trusted: Lean kernel, C01's regenerated tables, harness "
         "(csg evaluator, crossing counter) and driver."
     ),
 )
